@@ -357,6 +357,57 @@ fn dns(args: &[&str]) -> String {
     })
 }
 
+/// dnsrace <rounds> <k> <hexname>: k concurrent COLD lookups of one name with k distinct ports, on a multi-threaded
+/// runtime, `rounds` times (cache cleared before every round). Every answer must carry the port of ITS request.
+/// result: total=<n> mismatch=<m> err=<e> [first=<asked>:<got>]
+fn dnsrace(args: &[&str]) -> String {
+    let rounds: usize = args[0].parse().unwrap();
+    let k: usize = args[1].parse().unwrap();
+    let name = String::from_utf8(unhex(args[2])).unwrap();
+    let rt = tokio::runtime::Builder::new_multi_thread()
+        .worker_threads(4)
+        .enable_all()
+        .build()
+        .unwrap();
+    rt.block_on(async move {
+        use anytls_rs::util::dns_cache::dns_verif_hooks::dns_cache_clear;
+        let (mut total, mut mismatch, mut err) = (0usize, 0usize, 0usize);
+        let mut first: Option<(u16, u16)> = None;
+        for r in 0..rounds {
+            dns_cache_clear().await;
+            let barrier = Arc::new(tokio::sync::Barrier::new(k));
+            let mut hs = Vec::new();
+            for i in 0..k {
+                let b = barrier.clone();
+                let n = name.clone();
+                let port = 20000 + ((r * 31 + i * 7) % 20000) as u16 + i as u16;
+                hs.push(tokio::spawn(async move {
+                    b.wait().await;
+                    (port, anytls_rs::util::resolve_host_with_cache(&n, port).await.map(|a| a.port()))
+                }));
+            }
+            for h in hs {
+                total += 1;
+                match h.await {
+                    Ok((asked, Ok(got))) => {
+                        if asked != got {
+                            mismatch += 1;
+                            first.get_or_insert((asked, got));
+                        }
+                    }
+                    _ => err += 1,
+                }
+            }
+        }
+        dns_cache_clear().await;
+        let mut out = format!("total={} mismatch={} err={}", total, mismatch, err);
+        if let Some((a, g)) = first {
+            out.push_str(&format!(" first={}:{}", a, g));
+        }
+        out
+    })
+}
+
 // ------------------------------------------------------------------------------------------ C15
 fn udpenc(args: &[&str]) -> String {
     let d = unhex(args[1]);
@@ -1123,6 +1174,7 @@ pub fn dispatch(drv: &str, args: &[&str]) -> Option<String> {
         "udpinit" => Some(udpinit(args)),
         "destenc" => Some(destenc(args)),
         "dns" => Some(dns(args)),
+        "dnsrace" => Some(dnsrace(args)),
         "udpenc" => Some(udpenc(args)),
         "udpdec" => Some(udpdec(args)),
         "socksreq" => Some(socksreq(args)),
